@@ -27,7 +27,11 @@ func (c *Ctx) nilablePos() {
 
 func init() {
 	properties["BR"] = &Property{Level: "other", Engine: "effects", Run: func(c *Ctx) {
-		c.ssaRepo("buf-readonly", func(w *effects.World) *report.RuleResult { return effects.BufReadonly(w, "cmd/php-parser") })
+		c.ssaRepo("cmd-buf-readonly", func(w *effects.World) *report.RuleResult {
+			r := effects.BufReadonly(w, "cmd/php-parser")
+			r.Rename("cmd-buf-readonly")
+			return r
+		})
 	}}
 	properties["NP"] = &Property{Level: "other", Engine: "effects", Run: func(c *Ctx) { c.nilablePos() }}
 	properties["GR"] = &Property{ // development aid: grammar-structure rules
@@ -91,11 +95,15 @@ func init() {
 			})
 			c.ssaRepo("globals-assigned", func(w *effects.World) *report.RuleResult { return effects.GlobalsAssigned(w, "cmd/php-parser") })
 		})
-	const brc = "buf-readonly on the command: what cmd/php-parser prints, dumps or writes back goes into storage made for that purpose - no byte slice that is not local storage (the file's content, which every token value of the tree aliases) is handed to bytes.NewBuffer or any other callee that may write it (seed C13-15: `bytes.NewBuffer(res.content[:0])` as the -pb output buffer; as soon as the printer inserts a blank, printing overwrites source bytes of tokens it has not printed yet)."
+	const brc = "cmd-buf-readonly (buf-readonly on the command): what cmd/php-parser prints, dumps or writes back goes into storage made for that purpose - no byte slice that is not local storage (the file's content, which every token value of the tree aliases) is handed to bytes.NewBuffer or any other callee that may write it (seed C13-15: `bytes.NewBuffer(res.content[:0])` as the -pb output buffer; as soon as the printer inserts a blank, printing overwrites source bytes of tokens it has not printed yet)."
 	for _, id := range []string{"C13", "C02", "C11"} {
-		extendProp(id, brc, []report.Floor{{Rule: "buf-readonly", What: "functions", Min: 40}},
+		extendProp(id, brc, []report.Floor{{Rule: "cmd-buf-readonly", What: "functions", Min: 40}},
 			func(c *Ctx) {
-				c.ssaRepo("buf-readonly", func(w *effects.World) *report.RuleResult { return effects.BufReadonly(w, "cmd/php-parser") })
+				c.ssaRepo("cmd-buf-readonly", func(w *effects.World) *report.RuleResult {
+					r := effects.BufReadonly(w, "cmd/php-parser")
+					r.Rename("cmd-buf-readonly")
+					return r
+				})
 			})
 	}
 	extendProp("C01", "no-global-writes on the packages that own or use the pools: every lexer has its own token and position pool; a pool kept in a package-level variable is shared by all parses of the process, so two parses running at the same time corrupt each other's tokens and index past the block (seed C01-15).",
